@@ -63,6 +63,11 @@ func (v *Vue) evalInclude(ctx VueContext, node *html.Node, vars map[string]any, 
 		return nil, fmt.Errorf("error parsing %s (included from %s): %w", name, ctx.FormatTemplateChain(), err)
 	}
 
+	// Registered shorthand tags work inside component files like in the page itself
+	if err := v.resolveComponentTags(compDom); err != nil {
+		return nil, err
+	}
+
 	// Validate and process template tag
 	processedDom, err := v.evalTemplate(ctx, compDom, ctx.stack.EnvMap(), depth+1)
 	if err != nil {
